@@ -10,7 +10,7 @@ from collections import Counter
 
 from onnx_ir.journaling import Journal, _wrappers
 
-from .irdrive import Universe, call_from_compact
+from .irdrive import Universe, call_from_compact, compact, mk
 
 NAMES4 = ["a", "b", "a", "<none>"]
 CONSTS4 = [True, True, False, True]
@@ -107,9 +107,15 @@ class JournalReplayer:
     def replay(self, rec) -> None:
         h, rows = rec["h"], rec["rows"]
         self.stats["states"] += 1
+        # harness-added probes (no entry prediction: only plain-vs-journaled equivalence is compared):
+        # Graph.sort(), which internally re-appends every node through one-shot iterators
+        rows = list(rows) + [dict(kind="op", c=compact(mk("GSort", g=1)), out="?", all=None, done=[], probe=True),
+                             dict(kind="op", c=compact(mk("GSort", g=2)), out="?", all=None, done=[], probe=True)]
+        one_shot = self.stats["states"] % 2 == 0
         # 1. plain pass: what every candidate step does without any journal
         plain = []
         u = self.build_plain(h)
+        u.one_shot = one_shot
         pre = u.project()
         dirty = False
         for row in rows:
@@ -118,6 +124,7 @@ class JournalReplayer:
                 continue
             if dirty:
                 u = self.build_plain(h)
+                u.one_shot = one_shot
             c = call_from_compact(row["c"])
             out = u.apply(c)
             post = u.project()
@@ -125,6 +132,7 @@ class JournalReplayer:
             dirty = post != pre
         # 2. journal pass
         u, journals, active, snaps = self.build_journaled(h, rec)
+        u.one_shot = one_shot
         try:
             if u.project() != pre:
                 self.finding("C20", "C20:transparent:history", rec, {}, message="IR state after the history differs inside journals")
@@ -139,6 +147,7 @@ class JournalReplayer:
                 if dirty:
                     self.unwind(active, snaps)
                     u, journals, active, snaps = self.build_journaled(h, rec)
+                    u.one_shot = one_shot
                     dirty = False
                 self.stats["calls"] += 1
                 if row["kind"] == "enter":
@@ -168,6 +177,8 @@ class JournalReplayer:
                     what = "outcome" if out != pl[0] else "state"
                     self.finding("C20", f"C20:transparent:{c['op']}:{what}", rec, row, journaled=out, plain=pl[0],
                                  message=f"{c['op']} behaves differently inside a journal: {out} vs {pl[0]} ({what})")
+                    continue
+                if row.get("probe"):
                     continue
                 if (row["out"] == "ok") != (out == "ok"):
                     # model and code disagree on the call itself (a matter of C01/C06, e.g. the known
